@@ -52,12 +52,6 @@ def mat_term(rows):
     return "(mat_of_rows %s)" % crows(rows)
 
 
-def digit_clash(case):
-    """bitstring_probabilities' string replacements erase the ones when the
-    character "1" names an eigenstate other than the one-state"""
-    return "1" in case["basis"] and case["one"] != "1"
-
-
 def coq_able_obs(case):
     D = case["d"] ** case["n"]
     return (case["state"]["type"] == "ket" and D <= 81) or D <= 27
@@ -81,12 +75,12 @@ def item_obs(case, run):
         "chk_occupation %s %s %s s %s %s" % (nat(d), nat(n), nat(one), sden, flist(run["occupation"])),
         "chk_correlation %s %s %s s %s %s" % (nat(d), nat(n), nat(one), sden, frows(run["correlation"])),
         "chk_expect %s H %s s %s %s %s" % (nat(D), hden, sden, fl(run["energy"][0]), fl(run["energy"][1])),
-        "chk_m2 %s H %s s %s %s" % (nat(D), hden, sden, fl(run["second_moment"])),
-        "chk_var %s H %s s %s %s" % (nat(D), hden, sden, fl(run["variance"])),
+        "chk_m2 %s %s H %s s %s %s" % (nat(d), nat(n), hden, sden, fl(run["second_moment"])),
+        "chk_var %s %s H %s s %s %s" % (nat(d), nat(n), hden, sden, fl(run["variance"])),
         "chk_fidelity %s %s %s s %s %s" % (nat(D), state_term(tg), coq_Z(tg["den"]), sden, fl(run["fidelity"])),
         "chk_expect %s %s %s s %s %s %s" % (nat(D), mat_term(case["op"]["rows"]), coq_Z(case["op"]["den"]), sden,
                                            fl(run["expectation"][0]), fl(run["expectation"][1])),
-        "chk_bitprobs %s %s %s %s s %s %s %s" % (nat(d), nat(n), nat(one), coq_bool(digit_clash(case)), sden, fl(CUTOFF),
+        "chk_bitprobs %s %s %s s %s %s %s" % (nat(d), nat(n), nat(one), sden, fl(CUTOFF),
                                             "[" + "; ".join("(%s, %s)" % (coq_Z(k), fl(v)) for k, v in run["probs"]) + "]"),
     ]
     model = "(let s := %s in let H := %s in SL [%s])" % (s, H, "; ".join("SB (%s)" % c for c in checks))
@@ -206,9 +200,9 @@ def item_backend(case, run):
         elif typ == "energy":
             c = "chk_expect %s H %s s %s %s %s" % (nat(D), hden, sden, fl(v[0]), fl(v[1]))
         elif typ == "second_moment":
-            c = "chk_m2 %s H %s s %s %s" % (nat(D), hden, sden, fl(v))
+            c = "chk_m2 %s %s H %s s %s %s" % (nat(d), nat(n), hden, sden, fl(v))
         elif typ == "variance":
-            c = "chk_var %s H %s s %s %s" % (nat(D), hden, sden, fl(v))
+            c = "chk_var %s %s H %s s %s %s" % (nat(d), nat(n), hden, sden, fl(v))
         elif typ == "fidelity":
             idx = 0
             for _ in range(n):
